@@ -27,6 +27,18 @@ def table_sets(p):
     return [e for e in p.events if e["kind"] == "write" and self_field(e) == "table" and e["how"] == "call"]
 
 
+def any_form(ctx, h):
+    """(range term, predicate body over elem(dummy)) if the helper is `range.any(|x| pred)`, else None"""
+    from ..terms import apply_closure
+    if h.loop_heads():
+        return None
+    r = TermBuilder(h, ctx.prog).return_term()
+    if r[0] == "call" and r[1].endswith("::any") and len(r[2]) == 2 and r[2][1][0] == "closure":
+        body = apply_closure(r[2][1], (("elem", ("dummy",)),))
+        return r[2][0], body
+    return None
+
+
 def run(ctx):
     prog = ctx.prog
     ins = ctx.anchor(INSERT)
@@ -109,6 +121,14 @@ def run(ctx):
     ctx.check(okf, "R14-first-insert", ii.key, ii, "first action is write_to_bucket(i1, f); success returns Ok",
               "insert_internal does not start with an unconditional placement attempt in bucket i1 that returns Ok on success")
 
+    delete_rules(ctx, dele)
+    helper_rules(ctx, wtb, hib, rfb, q_needed=True)
+
+
+def delete_rules(ctx, dele):
+    """delete removes exactly one copy from i1 or else i2 and decrements once (also C01's premise: an element inserted more often
+    than deleted is still found)"""
+    prog = ctx.prog
     # ---- R14-accounting: delete ----------------------------------------------------------
     pe = PathEnumerator(dele, prog, ctx.summ)
     problems = []
@@ -146,6 +166,10 @@ def run(ctx):
               "delete probes buckets i1 and i2 of start(t) with fingerprint f of start(t)",
               "delete does not probe exactly the two candidate buckets of start(t): %s" % [(fmt(a), fmt(b)) for a, b in buckets])
 
+
+
+def helper_rules(ctx, wtb, hib, rfb, q_needed=True):
+    prog = ctx.prog
     # ---- helpers: at most one slot touched, immediate return ---------------------------------
     for h, kind in ((wtb, "write"), (rfb, "remove")):
         pe = PathEnumerator(h, prog, ctx.summ, max_back=2)
@@ -174,6 +198,9 @@ def run(ctx):
 
     # ---- R14-full-scan: a helper may give up (return false) only after the iterator over the bucket is exhausted ------
     for h in (wtb, hib, rfb):
+        if any_form(ctx, h) is not None:
+            ctx.ok("R14-full-scan", h.key, "iterator `any` over the whole slot range: false only after every slot was examined")
+            continue
         pe = PathEnumerator(h, prog, ctx.summ, max_back=1)
         heads = h.loop_heads()
         body = h.natural_loop(heads[0]) if len(heads) == 1 else set()
@@ -194,6 +221,13 @@ def run(ctx):
     # ---- R14-siblings: slot range and tested/written slot -------------------------------------
     shapes = {}
     for h in (wtb, hib, rfb):
+        af = any_form(ctx, h)
+        if af is not None:
+            rng_a, body_a = af
+            get_a = [x for x in body_a[2] if x[0] == "call" and x[1].endswith("::get")] if body_a[0] == "op" else []
+            slots_a = {("get", repr(get_a[0][2][1]), self_field_term(get_a[0][2][0]))} if get_a else set()
+            shapes[h.key] = (rng_a, slots_a, {repr(body_a)})
+            continue
         tb = TermBuilder(h, prog)
         rng = None
         for bi, t in h.calls():
@@ -230,6 +264,12 @@ def run(ctx):
         get_t = ("call", "<succinct::IntVector as succinct::IntVec>::get", (("field", ("param", 1, "self"), "table"), elem))
         want_cmp = const(0) if h is wtb else ("param", 3, "f")
         good_cmp = any(c == repr(mk("Eq", get_t, want_cmp)) for c in cmps)
+        if any_form(ctx, h) is not None:
+            # in the iterator form the closure's element is elem(dummy) of the range it is applied to
+            dummy = ("elem", ("dummy",))
+            get_d = ("call", "<succinct::IntVector as succinct::IntVec>::get", (("field", ("param", 1, "self"), "table"), dummy))
+            good_slots = all(s_[1] == repr(dummy) and s_[2] == "table" for s_ in slots) and bool(slots)
+            good_cmp = any(c == repr(mk("Eq", get_d, want_cmp)) for c in cmps)
         ctx.check(good_rng and good_slots and good_cmp, "R14-siblings", h.key, h,
                   "scans slots i*bucketsize .. i*bucketsize+bucketsize of self.table, tests slot == %s" % fmt(want_cmp),
                   "bucket helper deviates from the common slot-scan shape (range ok=%s, slots ok=%s, guard ok=%s): range is %s" % (good_rng, good_slots, good_cmp, fmt(rng) if rng else None))
@@ -252,6 +292,7 @@ def run(ctx):
             if p.exit_kind != "return":
                 continue
             hits = [e for e in p.events if e["kind"] == "call" and e["name"] == "has_in_bucket" and e["ret"] == "true"]
+            hits += [c for c, tr in pe.path_facts(p) if tr and c[0] == "call" and c[1].endswith("::has_in_bucket")]
             if (p.ret == "true") != bool(hits):
                 sem = False
         ctx.check(sorted(map(repr, probes)) == sorted(map(repr, exp)) and sem, "R14-query", q.key, q,
